@@ -177,6 +177,9 @@ def sweep(text, spec, extents, sizes=None, policies=("M",), extra_env=None, max_
     Returns dict(n, nonempty, fails=[(mask, kind, msg)], per_policy={policy: nfail})."""
     code = compile_code(text)
     cells = cell_list(spec, extents)
+    if len(cells) > 17:
+        from mc.core.par import HarnessError
+        raise HarnessError("refusing to enumerate 2^%d presence patterns (extents %r)" % (len(cells), extents))
     n = 1 << len(cells)
     fails, nonempty = [], 0
     per_policy = {p: 0 for p in policies}
